@@ -1,4 +1,5 @@
 import FR
+import FR.Glob.Render
 /-!
 # Line-protocol driver for the correspondence check
 
@@ -114,6 +115,11 @@ def stepLine (s : Sys) (line : String) : Sys × String :=
     match unhexTok p, unhexTok subj with
     | some p, some subj => (s, s!"G {Glob.globMatch p subj} {Glob.rglob p subj}")
     | _, _ => (s, "bad-op")
+  | ["rxtext", p] =>
+    -- the text of the regular expression `compile_pattern(p)` builds
+    match unhexTok p with
+    | some p => (s, "X " ++ toHex (Glob.render (Glob.compile p)))
+    | none => (s, "bad-op")
   | "globs" :: p :: subjects =>
     match unhexTok p, subjects.mapM unhexTok with
     | some p, some ss =>
